@@ -193,6 +193,16 @@ def gen_cases(tier, seed):
     for (m, n) in dshapes:
         for k in (range(16) if thorough else (0, 1, 8, 9)):
             cases.append(dict(kind="dense", m=m, n=n, k=k, aggs="all", seed=seed))
+    # special families added after three seeded changes were missed (DESIGN 7.4): entries below norm_eps <= sigma_max, thousands of
+    # zero columns, and tall float32 matrices with a large common offset
+    for (m, n) in ((2, 3), (3, 3)):
+        for blk in _blocks(sorted(set(orbit_reps(m, n, rows=True))), 8):
+            cases.append(dict(kind="special", what="big-norm-eps", m=m, n=n, idx=blk))
+    for k in range(4):
+        cases.append(dict(kind="special", what="wide-zero-columns", k=k))
+    for m in (26, 30):
+        for off in (0.0, 1e4):
+            cases.append(dict(kind="special", what="tall-krum-float32", m=m, offset=off))
     return cases
 
 
@@ -505,6 +515,120 @@ def run_case(case):
         J = dense_matrix(case["seed"], m, n, case["k"])
         run_direct(J, configs(m, n, case["aggs"], dense=True), ctx, with_group=True)
         run_nash_span(J, ctx)
+    elif kind == "special":
+        run_special(case, ctx)
     else:
         raise ValueError(kind)
     return ctx.result()
+
+
+def _givens(n, i, j, theta):
+    Q = np.eye(n)
+    c, s_ = math.cos(theta), math.sin(theta)
+    Q[i, i] = Q[j, j] = c
+    Q[i, j], Q[j, i] = -s_, s_
+    return Q
+
+
+def run_special(case, ctx):
+    import torch
+    from torchjd import aggregation as T
+
+    what = case["what"]
+
+    def call(agg, J, dtype=torch.float64):
+        ctx.execs += 1
+        try:
+            return agg(torch.tensor(J, dtype=dtype)).double().numpy()
+        except Exception as e:
+            ctx.viol.append(dict(sig=f"exception:special:{type(agg).__name__}:{type(e).__name__}", msg=f"{what} J={np.asarray(J).tolist()[:3]}: {e!r}"[:400]))
+            return None
+
+    if what == "big-norm-eps":
+        # every |entry| (= 1) is below norm_eps = 1.2 while sigma_max >= 1.3: the aggregator must still project, and
+        # commute with rotations that concentrate a row into one coordinate
+        m, n = case["m"], case["n"]
+        for idx in case["idx"]:
+            J = A.ternary_index(m, n, idx)
+            s = A.sigma_max(J)
+            if s < 1.3 or not (J @ J.T < 0).any():
+                ctx.dropped += 1
+                continue
+            Qs = [_givens(n, i, j, th) for i in range(n) for j in range(i + 1, n) for th in (math.pi / 7, 1.0)]
+            v = np.arange(1, n + 1, dtype=np.float64)
+            Qs.append(np.eye(n) - 2 * np.outer(v, v) / (v @ v))
+            for name, agg, tol in (("UPGrad", T.UPGrad(norm_eps=1.2), 1e-9), ("DualProj", T.DualProj(norm_eps=1.2), 1e-9),
+                                   ("CAGrad", T.CAGrad(c=0.5, norm_eps=1.2), 1e-3)):
+                if name == "CAGrad" and R.is_stationary(J, 1e-6):
+                    ctx.dropped += 1
+                    continue
+                x = call(agg, J)
+                if x is None:
+                    continue
+                for qi, Q in enumerate(Qs):
+                    y = call(agg, J @ Q)
+                    if y is None:
+                        continue
+                    err = float(np.abs(y - x @ Q).max())
+                    ctx.compare(f"special:big-norm-eps:{name}", err, tol * s, f"orthogonal:{name}:norm_eps-above-entries",
+                                lambda: f"{name}(norm_eps=1.2) J={J.tolist()} sigma_max={s:.3g} Q#{qi}: A(JQ)={y.tolist()} A(J)Q={(x @ Q).tolist()}")
+                ctx.nontrivial += 1
+                ctx.outcomes.add(f"bne:{name}:" + digest(np.round(x, 6).tolist()))
+    elif what == "wide-zero-columns":
+        # appending thousands of all-zero columns changes nothing for the old coordinates (condition numbers 50 and 100: the
+        # numerical rank is unambiguous)
+        k = case["k"]
+        D = [np.diag([1.0, 0.5, 0.02]), np.diag([1.0, 0.3, 0.01])][k % 2]
+        J = np.hstack([D, np.zeros((3, 3))])
+        if k >= 2:  # mix the coordinates with a rotation so that the rows are dense
+            Q = _givens(6, 0, 3, 0.7) @ _givens(6, 1, 4, 1.1) @ _givens(6, 2, 5, 0.4) @ _givens(6, 0, 1, 0.3)
+            J = J @ Q
+        s = A.sigma_max(J)
+        aggs = [("AlignedMTL", T.AlignedMTL(), 1e-9), ("AlignedMTL|p", T.AlignedMTL(pref_vector=torch.tensor([1.0, 2.0, 3.0], dtype=torch.float64) / 6), 1e-9),
+                ("IMTLG", T.IMTLG(), 1e-9), ("ConFIG", T.ConFIG(), 1e-9), ("UPGrad", T.UPGrad(), 1e-9), ("DualProj", T.DualProj(), 1e-9),
+                ("MGDA", T.MGDA(), 1e-9), ("Mean", T.Mean(), 1e-12), ("Krum", T.Krum(0, 1), 1e-12), ("TrimmedMean", T.TrimmedMean(1), 1e-12),
+                ("CAGrad", T.CAGrad(c=0.5), 1e-3)]
+        for name, agg, tol in aggs:
+            x = call(agg, J)
+            if x is None:
+                continue
+            for extra in (1000, 5000):
+                y = call(agg, np.hstack([J, np.zeros((3, extra))]))
+                if y is None:
+                    continue
+                err = max(float(np.abs(y[:6] - x).max()), float(np.abs(y[6:]).max()))
+                ctx.compare(f"special:wide-zero-columns:{name}", err, tol * s, f"zero-column:{name}:wide",
+                            lambda: f"{name} on a 3x6 matrix (singular values {np.linalg.svd(J, compute_uv=False).round(4).tolist()}) with {extra} zero columns appended: "
+                                    f"old coordinates {y[:6].tolist()} vs {x.tolist()}, new coordinates max |.|={float(np.abs(y[6:]).max()):.3g}")
+            ctx.nontrivial += 1
+            ctx.outcomes.add(f"wzc:{name}:" + digest(np.round(x, 6).tolist()))
+    else:  # tall-krum-float32
+        m, off = case["m"], case["offset"]
+        n = 3
+        J = np.array([[off + ((7 * i + 3 * j) % 5) + 0.03125 * i * (j + 1) for j in range(n)] for i in range(m)])
+        J32 = torch.tensor(J, dtype=torch.float32).double().numpy()
+        for f, k in ((0, 1), (2, 1), (2, 3)):
+            scores = sorted(R.krum_scores(J32, f))
+            if scores[k] - scores[k - 1] < 1e-3 * max(1.0, scores[k]):
+                ctx.dropped += 1
+                ctx.count("drop:krum-tie")
+                continue
+            agg = T.Krum(f, k)
+            x = call(agg, J32, torch.float32)
+            if x is None:
+                continue
+            for perm in itertools.permutations(range(n)):
+                y = call(agg, J32[:, list(perm)], torch.float32)
+                if y is not None:
+                    err = float(np.abs(y - x[list(perm)]).max())
+                    ctx.compare("special:tall-krum-float32:perm", err, 1e-6 * max(1.0, off), "perm:Krum:tall-float32",
+                                lambda: f"Krum({f},{k}) float32 {m}x{n} rows offset {off:g}: A(J[:,{list(perm)}])={y.tolist()} A(J)[perm]={x[list(perm)].tolist()}")
+            for pos in range(n + 1):
+                Jz = np.insert(J32, pos, 0.0, axis=1)
+                y = call(agg, Jz, torch.float32)
+                if y is not None:
+                    err = max(float(np.abs(np.delete(y, pos) - x).max()), abs(float(y[pos])))
+                    ctx.compare("special:tall-krum-float32:zero-column", err, 1e-6 * max(1.0, off), "zero-column:Krum:tall-float32",
+                                lambda: f"Krum({f},{k}) float32 {m}x{n} rows offset {off:g}, zero column at {pos}: {y.tolist()} vs {x.tolist()}")
+            ctx.nontrivial += 1
+            ctx.outcomes.add(f"tk:{m}:{off}:{f}:{k}:" + digest(np.round(x, 3).tolist()))
